@@ -1143,6 +1143,40 @@ func dsWorld(rnd *rand.Rand) vt.Case {
 	return vt.Case{"step": step, "shape": shape, "res": res, "reps": reps}
 }
 
+// gapWorld (phase 2): one logical series whose replicas (own values, each non-decreasing) take turns in
+// missing stretches of scrapes, so that the penalty dedup has to switch replicas back and forth.
+func gapWorld(rnd *rand.Rand) vt.Case {
+	step := []int64{1000, 15000, 30000}[rnd.Intn(3)]
+	n := 12 + rnd.Intn(30)
+	nrep := 2 + rnd.Intn(2)
+	blk := 3 + rnd.Intn(5)
+	nst := 1 + rnd.Intn(3)
+	reps := []any{}
+	for id := 1; id <= nrep; id++ {
+		var pts []int
+		for p := 1; p <= n; p++ {
+			if ((p-1)/blk)%nrep == id-1 && rnd.Intn(8) > 0 {
+				continue // this replica's turn to be down
+			}
+			pts = append(pts, p)
+		}
+		if len(pts) == 0 {
+			pts = []int{id}
+		}
+		chunks := []any{}
+		for pos := 1; pos <= len(pts); {
+			hi := pos + rnd.Intn(1+len(pts)/2)
+			if hi > len(pts) {
+				hi = len(pts)
+			}
+			chunks = append(chunks, map[string]any{"lo": pos, "hi": hi, "st": 1 + rnd.Intn(nst)})
+			pos = hi + 1
+		}
+		reps = append(reps, map[string]any{"g": 1, "id": id, "rl": "r", "off": int64(rnd.Intn(3)) * step / 10, "own": true, "pts": pts, "chunks": chunks})
+	}
+	return vt.Case{"step": step, "shape": "a", "reps": reps}
+}
+
 var p2Funcs = []string{"min_over_time", "max_over_time", "count_over_time", "sum_over_time", "rate", "increase", "avg_over_time", "", "delta"}
 
 // p2Config (phase 2): aggregate-selecting functions, max source resolution around the window size,
@@ -1182,10 +1216,16 @@ func TestC04(t *testing.T) {
 		for _, wc := range vt.TLCCases(t) {
 			w := parseWorld(wc)
 			// every model world: dedup on and off, each with a seeded configuration
+			if w.res > 0 { // class D: downsampled chunks
+				emit(wc, p2Config(rnd, w, true))
+				emit(wc, p2Config(rnd, w, true))
+				emit(wc, p2Config(rnd, w, false))
+				continue
+			}
 			emit(wc, randomConfig(rnd, w, true))
 			emit(wc, randomConfig(rnd, w, false))
 		}
-		for i, n := 0, vt.Pick(300, 3000); i < n; i++ {
+		for i, n := 0, vt.Pick(200, 3000); i < n; i++ {
 			wc := randomWorld(rnd, []int{6, 20, 60}[rnd.Intn(3)], false)
 			w := parseWorld(vt.Normalize(wc))
 			emit(wc, randomConfig(rnd, w, true))
@@ -1193,7 +1233,7 @@ func TestC04(t *testing.T) {
 		}
 		// TSDB-backed worlds: most with small head chunks and a tiny TSDBStore frame budget, so that
 		// a series is streamed as several frames by the real store
-		for i, n := 0, vt.Pick(40, 300); i < n; i++ {
+		for i, n := 0, vt.Pick(30, 300); i < n; i++ {
 			wc := randomWorld(rnd, vt.Pick(150, 400), true)
 			w := parseWorld(vt.Normalize(wc))
 			cfg := randomConfig(rnd, w, i%2 == 0)
@@ -1209,17 +1249,20 @@ func TestC04(t *testing.T) {
 		}
 		// ---- phase 2 ----
 		// downsampled data through the read path (aggregated chunks, auto-downsampling, mixed raw + downsampled)
-		for i, n := 0, vt.Pick(250, 2500); i < n; i++ {
+		for i, n := 0, vt.Pick(150, 2500); i < n; i++ {
 			wc := dsWorld(rnd)
 			w := parseWorld(vt.Normalize(wc))
 			emit(wc, p2Config(rnd, w, true))
 			emit(wc, p2Config(rnd, w, rnd.Intn(2) == 0))
 		}
 		// counter functions on raw data, series metadata calls (skipChunks), a data store failing mid-stream
-		for i, n := 0, vt.Pick(200, 2000); i < n; i++ {
+		for i, n := 0, vt.Pick(150, 2000); i < n; i++ {
 			wc := randomWorld(rnd, []int{6, 20, 40}[rnd.Intn(3)], false)
+			if i%3 == 0 && i%2 == 0 {
+				wc = gapWorld(rnd)
+			}
 			w := parseWorld(vt.Normalize(wc))
-			cfg := randomConfig(rnd, w, i%3 != 0)
+			cfg := randomConfig(rnd, w, i%3 != 0 || i%2 == 0)
 			switch i % 3 {
 			case 0:
 				cfg.fn, cfg.rng = []string{"rate", "increase"}[rnd.Intn(2)], 600_000
